@@ -310,7 +310,14 @@ def wfIn (i : Input) : Bool :=
   -- sizes
   decide ((i.perm_r.size : Int) = i.m) && decide ((i.marker.size : Int) = 3 * i.m) &&
   decide (i.jcol ≤ i.repfnz.size) && decide (i.jcol ≤ i.parent.size) && decide (i.jcol ≤ i.xplore.size) &&
-  decide (0 ≤ i.nseg) && decide (i.nseg + i.jcol ≤ i.segrep.size + (visited0 i.jcol i.repfnz).length) &&
+  decide (0 ≤ i.nseg) &&
+  -- `segrep`: room for one entry per column below jcol; the entries already there (the panel's segments) are distinct
+  -- columns below jcol, and those this column has not reached (`repfnz = EMPTY`) lie below the representative of every
+  -- pivoted nonzero of the column (they are segments of OTHER columns of the panel, below the panel's first column,
+  -- whereas a pivoted nonzero was pivoted inside the panel): the search never appends one of them again
+  (decide (i.jcol ≤ i.segrep.size) && decide (slice i.segrep 0 i.nseg).Nodup &&
+   (slice i.segrep 0 i.nseg).all (fun v => 0 ≤ v && v < i.jcol && (rd i.repfnz v ≠ EMPTY ||
+     (colRows i.lsubCol).all fun row => rd i.perm_r row = EMPTY || v < repOf e (rd i.perm_r row)))) &&
   decide (0 ≤ nextl0) && decide (nextl0 + (unpivoted i.m i.perm_r).length ≤ i.lsub.size) &&
   -- pivot columns of rows: EMPTY or a previous column
   allBelow i.m (fun r => rd i.perm_r r = EMPTY || (0 ≤ rd i.perm_r r && rd i.perm_r r < i.jcol)) &&
@@ -318,11 +325,14 @@ def wfIn (i : Input) : Bool :=
   allBelow i.m (fun r => mk2 e i.st0 r ≠ i.jcol) &&
   -- representatives: last column of a run of consecutive columns
   allBelow i.jcol (fun k => (k : Int) ≤ repOf e k && repOf e k < i.jcol && repOf e (repOf e k) = repOf e k) &&
-  -- pruned lists: inside the part of lsub that is already filled, rows in range, pivoted beyond the supernode
-  -- (or on the diagonal of its last column): the graph is acyclic
+  -- pruned lists: inside the part of lsub that is already filled, rows in range, pivoted at the last column of the
+  -- supernode or beyond it (the edges of the graph), or at an earlier column of the SAME supernode (the list
+  -- `[sdcz]snode_dfs` writes for the last column of a relaxed supernode holds all the supernode's rows; the search
+  -- skips such a row because `repfnz` of the node it is scanning is set): the graph is acyclic
   allBelow i.jcol (fun s => repOf e s ≠ s ||
     (0 ≤ rd i.xlsub s && rd i.xlsub s ≤ rd i.xprune s && rd i.xprune s ≤ nextl0 &&
-     (adjRows e i.lsub s).all fun row => 0 ≤ row && row < i.m && (rd i.perm_r row = EMPTY || (s : Int) ≤ rd i.perm_r row))) &&
+     (adjRows e i.lsub s).all fun row => 0 ≤ row && row < i.m &&
+       (rd i.perm_r row = EMPTY || (s : Int) ≤ rd i.perm_r row || repOf e (rd i.perm_r row) = s))) &&
   -- the column's own rows
   (colRows i.lsubCol).all (fun row => 0 ≤ row && row < i.m)
 
